@@ -88,6 +88,8 @@ class Arena {
   bool freed() const { return freed_; }
 };
 
+// event ids are int64: values outside the 32-bit range (a narrowing store keeps small ids intact)
+constexpr int64_t kBigEventId = 0x1234567890ll, kNegEventId = -0x7ffffffff0ll;
 enum VK { V_BOOL, V_I32, V_I64, V_U32, V_U64, V_DBL, V_CSTR, V_STR, V_STR_LONG, V_STR_EMPTY, V_STR_NUL, V_CSTR_EMPTY,
           V_SP_BOOL, V_SP_I32, V_SP_I64, V_SP_U32, V_SP_DBL, V_SP_STR, V_SP_U64, V_SP_BYTE, V_SP_EMPTY, V_SP_STR_EMPTY, NVK };
 const char *kVKName[NVK] = {"bool", "int32", "int64", "uint32", "uint64", "double", "cstring", "string", "long-string", "empty-string", "string-with-NUL", "empty-cstring",
@@ -720,7 +722,7 @@ void build_args(Fixture &fx, ArgSet &s) {
   KvVector *kv = s.kv = make_kv(fx, s.keep, {{s.k1, s.v1}, {s.k2, s.v2}, {s.k1b, s.v3}});
   auto view = std::make_shared<common::KeyValueIterableView<KvVector>>(*kv);
   s.keep->objs.push_back(view);
-  auto ev = std::make_shared<logs::EventId>(77, "evt-name");
+  auto ev = std::make_shared<logs::EventId>(kBigEventId, "evt-name");
   s.keep->objs.push_back(ev);
   logs::EventId *evraw = ev.get();
   fx.extra_scribble.push_back([evraw]() { for (char *q = evraw->name_.get(); *q; ++q) *q = '#'; evraw->id_ = -1; });
@@ -752,7 +754,7 @@ void model_arg(Want &w, const ArgSet &s, int kind) {
     case K_BODY: set_body(w, want_of(s.body)); break;
     case K_ATTR: set_attr(w, "key.one", want_of(s.v1)); set_attr(w, "key.two", want_of(s.v2)); set_attr(w, "key.one", want_of(s.v3)); break;  // key.one repeated: last write wins
     case K_TS: w.has_ts = true; w.ts = kTs; break;
-    case K_EV: w.has_ev = true; w.ev_id = 77; w.ev_name = "evt-name"; break;
+    case K_EV: w.has_ev = true; w.ev_id = kBigEventId; w.ev_name = "evt-name"; break;
     case K_CTX: w.x_tid = w.x_sid = w.x_flg = true; w.tid = hex(tid_of(0xc1)); w.sid = hex(sid_of(0xc1)); w.flg = 0x09; break;
     case K_TID: w.x_tid = true; w.tid = hex(tid_of(0xd1)); break;
     case K_SID: w.x_sid = true; w.sid = hex(sid_of(0xe1)); break;
@@ -914,7 +916,7 @@ void run_values(vf::Ctx &c) {
   } else if (what == 5) {  // event ids, timestamps and identities passed as temporaries
     int carrier = c.pick("carrier", 6);
     switch (carrier) {
-      case 0: d = "EventId(id, name) temporary"; lg.EmitLogRecord(logs::EventId(31, "temporary-name")); w.has_ev = true; w.ev_id = 31; w.ev_name = "temporary-name"; break;
+      case 0: d = "EventId(id, name) temporary"; lg.EmitLogRecord(logs::EventId(kNegEventId, "temporary-name")); w.has_ev = true; w.ev_id = kNegEventId; w.ev_name = "temporary-name"; break;
       case 1: d = "EventId(id) without a name"; c.stage("EmitLogRecord(EventId(id))"); lg.EmitLogRecord(logs::EventId(32)); w.has_ev = true; w.ev_id = 32; w.ev_name = ""; break;
       case 2: d = "EventId(id, \"\")"; lg.EmitLogRecord(logs::EventId(33, "")); w.has_ev = true; w.ev_id = 33; w.ev_name = ""; break;
       case 3: {
@@ -1048,7 +1050,7 @@ void run_record(vf::Ctx &c) {
         case 5: { CallerValue *v = fx.val(V_SP_STR, 30 + i); rec->SetAttribute(view_of(k2), v->value()); set_attr(w, "k2", want_of(v)); d += ".SetAttribute(k2,span-string)"; break; }
         case 6: rec->SetTimestamp(common::SystemTimestamp(std::chrono::nanoseconds(kTs + i))); w.has_ts = true; w.ts = kTs + i; d += ".SetTimestamp"; break;
         case 7: { CallerValue *nm = text_value(fx, std::string("ev\0nt", 5)); rec->SetEventId(7 + i, view_of(nm)); w.has_ev = true; w.ev_id = 7 + i; w.ev_name = std::string("ev\0nt", 5); d += ".SetEventId(id,name)"; break; }
-        case 8: rec->SetEventId(100 + i); w.has_ev = true; w.ev_id = 100 + i; w.ev_name = ""; d += ".SetEventId(id)"; break;
+        case 8: rec->SetEventId(kBigEventId + 100 + i); w.has_ev = true; w.ev_id = kBigEventId + 100 + i; w.ev_name = ""; d += ".SetEventId(id)"; break;
         case 9: rec->SetTraceId(tid_of(0xd1)); w.x_tid = true; w.tid = hex(tid_of(0xd1)); d += ".SetTraceId"; break;
         case 10: rec->SetSpanId(sid_of(0xe1)); w.x_sid = true; w.sid = hex(sid_of(0xe1)); d += ".SetSpanId"; break;
         default: rec->SetTraceFlags(trace::TraceFlags(0x03)); w.x_flg = true; w.flg = 0x03; d += ".SetTraceFlags"; break;
